@@ -412,7 +412,86 @@ def check_combinator(lang, mod, name, fn, rep, R):
                   '%s lacks the modifier shortcut or the general result (%s)' % (name, modifier_paths))
     if n_results == 0:
         rep.violation(R['complete'], '%s:%s %s' % (mod.rel, fn.lineno, name), key0 + ':no-result', '%s never produces a result' % name)
+    if lang == 'en' and uni_used is None and n_results:
+        check_nonschema_decision(mod, name, fn, outs, params, rep, R, key0)
     return labels
+
+
+def _expand_membership(t):
+    """`v in (a, b)` over a display of constants -> `v == a or v == b` (so that a membership test and the comparisons it
+    abbreviates are one decision)"""
+    if not isinstance(t, tuple):
+        return t
+    if t and t[0] == 'cmp' and t[1] in ('in', 'not in') and t[3][0] in ('tuple', 'list', 'set') and t[3][1] \
+            and all(x[0] == 'const' for x in t[3][1]):
+        alts = tuple(('cmp', '==', _expand_membership(t[2]), x) for x in t[3][1])
+        d = alts[0] if len(alts) == 1 else ('bool', 'or', alts)
+        return d if t[1] == 'in' else ('unop', 'not', d)
+    return tuple(_expand_membership(x) for x in t)
+
+
+def _en_decision_spec(label, symbol, got, X, Y):
+    """the premises of the English rules that are not unification schemas, as the reference grammar (CCGbank conventions)
+    states them: when exactly the rule yields its result.  -> (formula, text) or None"""
+    P = lambda v: ('atom', ('truthy', ('call', N('_is_punct'), (N(v),), ())))
+    TR = lambda v: ('atom', ('truthy', ('call', N('_is_type_raised'), (N(v),), ())))
+    eq = lambda v, c: logic.formula(('cmp', '==', N(v), C(c)))
+    oneof = lambda v, cs: ('or', tuple(eq(v, c) for c in cs))
+    xor = lambda v, c: ('atom', ('truthy', ('binop', '^', N(v), C(c))))
+    y_over_y = got[0] == 'fn' and got[1] == ('in', Y) and got[3] == ('in', Y)
+    if label == 'conj' and y_over_y:
+        return ('and', (logic.neg(P(Y)), logic.neg(TR(Y)), oneof(X, (',', ';', 'conj')), logic.neg(xor(Y, 'NP\\NP')))), \
+            'left is , ; or conj, right is neither punctuation nor type-raised nor NP\\NP-like'
+    if label == 'conj' and got == ('in', Y):
+        return ('and', (eq(X, 'conj'), eq(Y, 'NP\\NP'))), 'conj NP\\NP'
+    if label == 'lp' and symbol == '<lp>' and got == ('in', Y):
+        return P(X), 'the left input is punctuation'
+    if label == 'rp' and symbol == '<rp>' and got == ('in', X):
+        return P(Y), 'the right input is punctuation'
+    if label == 'lp' and symbol == '<lp>' and y_over_y:
+        return oneof(X, ('LQU', 'LRB')), 'the left input is an opening quote / bracket'
+    if label == 'lp' and symbol == '<*>' and got == ('litcat', '(S\\NP)\\(S\\NP)'):
+        return ('and', (eq(X, ','), oneof(Y, ('S[ng]\\NP', 'S[pss]\\NP')))), 'comma + S[ng]\\NP or S[pss]\\NP'
+    if label == 'lp' and symbol == '<*>' and got == ('litcat', '(S\\NP)/(S\\NP)'):
+        return ('and', (eq(X, ','), eq(Y, 'S[dcl]/S[dcl]'))), 'comma + S[dcl]/S[dcl]'
+    return None
+
+
+def check_nonschema_decision(mod, name, fn, outs, params, rep, R, key0):
+    """a non-schema rule yields its result exactly when its premises hold: judged as a decision function over the
+    elementary tests of the rule, not by the spelling of its condition."""
+    X, Y = params
+    kinds = {}
+    for o in outs:
+        if o.result not in (None, 'raise'):
+            ops, opy = const_of(o.result['op_string']), const_of(o.result['op_symbol'])
+            kinds[(ops, opy, sc.absval(o.result['cat'], None, params))] = o
+    if len(kinds) != 1:
+        return
+    (label, symbol, got), o0 = next(iter(kinds.items()))
+    spec = _en_decision_spec(label, symbol, got, X, Y)
+    if spec is None:
+        return
+    f, text = spec
+    w = '%s:%s %s' % (mod.rel, fn.lineno, name)
+    path_vals = []
+    for o in outs:
+        if o.result == 'raise':
+            continue
+        conds = [(_expand_membership(c), pol) for c, pol in o.conds]
+        path_vals.append((conds, ('const', o.result is not None)))
+    try:
+        ok, bad, atoms = logic.equivalent(path_vals, f)
+    except ValueError as e:
+        raise AnalysisError('%s: decision of %s has %s' % (mod.rel, name, e))
+    detail = ''
+    if bad:
+        s2, results, want = bad[0]
+        detail = 'e.g. when %s the rule %s, the schema %s' % (
+            logic.show_sigma(s2, show), 'yields its result' if True in results else 'yields nothing', 'applies' if want else 'does not apply')
+    rep.check(ok, R['nonschema'], w, key0 + ':decision',
+              '%s (%s %s) yields its result exactly when %s (%d elementary tests)' % (name, label, symbol, text, len(atoms)),
+              '%s (%s %s) does not yield its result exactly when %s: %s' % (name, label, symbol, text, detail))
 
 
 def _restriction_on_path(conds, u, polarity=True):
